@@ -199,3 +199,14 @@ Example set_example :
   set_m 0 (VSl 9 [VPtr 1 (VInt 5%Z); VPtr 2 (VInt 5%Z); VPtr 1 (VInt 5%Z); VNilP] []) =
   Ok (VMap 0 (unit_entries [VPtr 1 (VInt 5%Z); VPtr 2 (VInt 5%Z); VNilP])).
 Proof. reflexivity. Qed.
+
+(* two different elements in ONE hash bucket ("Aa" and "BB" hash alike): the scan inside the
+   bucket still tells them apart, and finds the later duplicate *)
+Definition t_ss : ty := TSl (TB KStr).
+Definition ss (l : N) (s : list N) : val := VSl l [VStr s] [].
+Example unique_collision_example :
+  hashm [] t_ss (ss 1 [65; 97]%N) = hashm [] t_ss (ss 2 [66; 66]%N)
+  /\ unique_m [] t_ss 0 (fun ks => ks) (VSl 9 [ss 1 [65; 97]%N; ss 2 [66; 66]%N; ss 3 [65; 97]%N] []) =
+     Ok (VSl 9 [ss 1 [65; 97]%N; ss 2 [66; 66]%N] [ss 3 [65; 97]%N],
+         VSl 9 [ss 1 [65; 97]%N; ss 2 [66; 66]%N; ss 3 [65; 97]%N] []).
+Proof. split; vm_compute; reflexivity. Qed.
